@@ -146,6 +146,13 @@ def run(rep, prop=PROP):
         st = fh.result()
     t_par = round(time.time() - t0, 1); t0 = time.time()
     proof_broken = None if ok else detail
+    if ok and rep.tier == 'thorough':
+        # re-check the compiled property module with the independent kernel replay
+        with common.Lock('lake'):
+            rc, o = common.sh(['lake', 'env', 'leanchecker', 'Netpoll.Props.C14'], cwd=common.LEAN, timeout=1200)
+        rep.cov['leanchecker'] = 'ok' if rc == 0 else 'FAILED'
+        if rc != 0:
+            proof_broken = 'leanchecker rejects Netpoll.Props.C14:\n' + o[-1500:]
     if st.get('build_error'):
         rep.violation('harness does not build against /repo (does the tree compile?):\n' + st['build_error'][-2000:], ['# go build failed'], no_input=True)
         return
